@@ -330,6 +330,7 @@ number_of_failures_report_status(struct report_context *r,
 static int
 regress_report_step_log(struct report_context *r, const struct step *step)
 {
+	struct stat st;
 	struct buffer *bf;
 	const char *log_path, *name;
 	unsigned int regress_log_flags;
@@ -347,6 +348,9 @@ regress_report_step_log(struct report_context *r, const struct step *step)
 		warnx("step '%s' is missing mandatory log field", name);
 		return STEP_LOG_ERROR;
 	}
+	/* A log that was never written is as good as an empty one. */
+	if (stat(log_path, &st) == -1 && errno == ENOENT)
+		return STEP_LOG_UNHANDLED;
 	regress_log_flags = REGRESS_LOG_FAILED | REGRESS_LOG_XPASSED;
 	if (!is_regress_quiet(r, name))
 		regress_log_flags |= REGRESS_LOG_SKIPPED | REGRESS_LOG_XFAILED;
@@ -374,6 +378,11 @@ canvas_report_step_log(struct report_context *r, const struct step *step)
 		return STEP_LOG_UNHANDLED;
 	bf = arena_buffer_read(&s, log_path);
 	if (bf == NULL) {
+		/* A log that was never written is as good as an empty one. */
+		if (errno == ENOENT) {
+			buffer_putc(r->out, '\n');
+			return STEP_LOG_HANDLED;
+		}
 		warn("%s", log_path);
 		return STEP_LOG_ERROR;
 	}
@@ -767,6 +776,11 @@ report_step_log(struct report_context *r, const struct step *step)
 		return 0;
 	bf = arena_buffer_read(&s, log_path);
 	if (bf == NULL) {
+		/* A log that was never written is as good as an empty one. */
+		if (errno == ENOENT) {
+			buffer_putc(r->out, '\n');
+			return 0;
+		}
 		warn("%s", log_path);
 		return 1;
 	}
